@@ -257,8 +257,16 @@ def run_check(prop, tier, seed, only_parts=None, replay=None):
                                 p.get("timeout", 1800 if tier == "quick" else 6 * 3600), only=replay["only"]))
             continue
         for s in range(n):
-            shards.append(Shard(prop, p["part"], p["cfg"], s, n, tier, seed, outdir,
-                                p.get("timeout", 1800 if tier == "quick" else 6 * 3600)))
+            sh = Shard(prop, p["part"], p["cfg"], s, n, tier, seed, outdir,
+                       p.get("timeout", 1800 if tier == "quick" else 6 * 3600))
+            if p["part"].startswith("sampler:"):
+                # classes that are known FATAL findings of the property whose generator is sampled are reported by
+                # that property's own check; here they would only cost a worker restart each
+                src = p["part"].split(":")[1]
+                sh.spec["skip_patterns"] = sorted(set(k["key"].split("|crash:")[0] for k in load_known()
+                                                      if k.get("property") == src and k.get("status") == "known"
+                                                      and "|crash:" in k.get("key", "")))
+            shards.append(sh)
     sem = threading.Semaphore(NPROC)
 
     def _r(sh):
